@@ -21,6 +21,24 @@ func (e *Engine) isCellVar(o *types.Var) bool {
 			}
 			for _, f := range p.Syntax {
 				ast.Inspect(f, func(n ast.Node) bool {
+					if call, ok := n.(*ast.CallExpr); ok {
+						// x.M() with a pointer-receiver method on an addressable variable: implicit &x
+						if se, ok := ast.Unparen(call.Fun).(*ast.SelectorExpr); ok {
+							if sel := p.TypesInfo.Selections[se]; sel != nil && sel.Kind() == types.MethodVal {
+								if id, ok := ast.Unparen(se.X).(*ast.Ident); ok {
+									if v, ok := p.TypesInfo.ObjectOf(id).(*types.Var); ok && !v.IsField() && v.Pkg() != nil && v.Parent() != v.Pkg().Scope() {
+										_, recvPtr := sel.Obj().Type().(*types.Signature).Recv().Type().Underlying().(*types.Pointer)
+										_, varPtr := v.Type().Underlying().(*types.Pointer)
+										_, isIface := v.Type().Underlying().(*types.Interface)
+										if recvPtr && !varPtr && !isIface {
+											e.cellVars[v] = true
+										}
+									}
+								}
+							}
+						}
+						return true
+					}
 					u, ok := n.(*ast.UnaryExpr)
 					if !ok || u.Op != token.AND {
 						return true
@@ -104,4 +122,26 @@ func (x *Exec) cellKeys(o *types.Var) []string {
 	key := "Cell_" + sortId(s)
 	x.u.regHeap(key, "(Array Int "+s+")")
 	return []string{key}
+}
+
+// implicitAddr: the receiver of x.M() when M has a pointer receiver and x is an addressable
+// (cell) variable of non-pointer type: the cell's reference.
+func (fr *Frame) implicitAddr(st *State, c *ast.CallExpr) (Val, bool) {
+	se, ok := ast.Unparen(c.Fun).(*ast.SelectorExpr)
+	if !ok {
+		return Val{}, false
+	}
+	id, ok := ast.Unparen(se.X).(*ast.Ident)
+	if !ok {
+		return Val{}, false
+	}
+	o, ok := fr.info.ObjectOf(id).(*types.Var)
+	if !ok || !fr.x.eng.isCellVar(o) {
+		return Val{}, false
+	}
+	if _, bound := st.vars[o]; !bound {
+		fr.expr(st, id)
+	}
+	p := st.vars[o]
+	return Val{T: p.T, S: "Int", Ty: types.NewPointer(o.Type())}, true
 }
